@@ -158,6 +158,8 @@ def _last_stmt_start(lines):
             if t.startswith("*/"):
                 in_multi = False
             continue
+        if l.kind == "cont":
+            continue
         if l.kind == "comment" and t == "/*":
             in_multi = True
         last = i
@@ -200,6 +202,8 @@ def _nstmts(lines):
             if t.startswith("*/"):
                 in_multi = False
             continue
+        if l.kind == "cont":
+            continue            # second physical line of a statement
         if l.kind == "comment" and t == "/*":
             in_multi = True
         n += 1
